@@ -28,7 +28,7 @@ PROPS = {
         "trusted_base": ["the destination honours seek (not O_APPEND) and a write that returns Ok(n) stored exactly the first n bytes",
                          "std::io::Write::write_all loop semantics (modelled; compared call by call)"],
         "assumptions": ["start offset inside the destination's existing content (theorem hypothesis; the gap case is compared against the model only)",
-                        "stream writers patch only bytes that have not been flushed yet (true of every writer in the crate)"],
+                        "stream writers patch only bytes that have not been flushed yet (a theorem hypothesis; checked on every real dump by the call-log replay)"],
         "explanation": "C09 theorems: mirror invariant kept by every operation under every destination script; failure post-condition; "
                        "success corollary (destination from start == image, nothing before/beyond modified).",
     },
